@@ -6,6 +6,7 @@ package props
 import (
 	"bytes"
 	"context"
+	"crypto/tls"
 	"errors"
 	"fmt"
 	"io"
@@ -44,6 +45,9 @@ type ClientCfg struct {
 	// with a weaker policy (which moves the port) followed by WithTLSPortPolicy. In every case
 	// the policy in force is TLSPolicy.
 	PolicyVia string `json:"policyVia,omitempty"`
+	// TLSConfigNoName: the caller supplies its own tls.Config that sets no ServerName (only a
+	// minimum version): whatever name is verified then, it must be the configured host's.
+	TLSConfigNoName bool `json:"tlsConfigNoName,omitempty"`
 	// Sibling: another Client, for this host, is created right after this one and never used (a
 	// process that talks to several servers); nothing of it may leak into this Client.
 	Sibling     string `json:"sibling,omitempty"`
@@ -138,6 +142,9 @@ func BuildClient(c ClientCfg, dial mail.DialContextFunc, logger mlog.Logger) (*m
 	}
 	if c.HELO != "" {
 		opts = append(opts, mail.WithHELO(c.HELO))
+	}
+	if c.TLSConfigNoName {
+		opts = append(opts, mail.WithTLSConfig(&tls.Config{MinVersion: tls.VersionTLS12}))
 	}
 	if c.DSN {
 		opts = append(opts, mail.WithDSN())
